@@ -1439,6 +1439,7 @@ def main():
         'with and without a faulting statement; non-trivial = more than one statement or job, '
         'distinct by AST.  Formatter().parse: every string over {}!:[]a0 up to length ' + str(L) +
         ' plus random strings over a richer alphabet.')
+    chk.coverage['rule'] += ' Added late, as a TEST over a fixed list (not a proof): the bytes on the standard output of whole lsrun processes for seven scripts that also make the machine log something.'
     chk.assumptions += [
         'values are rendered by CPython (str(), str.format) on both sides; the model emits chunks',
         'format field names and variable names are ASCII (str.upper / str.isdecimal on other '
